@@ -177,6 +177,11 @@ func genScenario(r *vlib.PRNG, id string, ngpu int, timing bool) scenario {
 	}
 	s.TwoDrain = r.Chance(1, 6)
 	nq := s.Threads + r.Intn(3)
+	if timing {
+		// several queues per context: copies of one queue overlap kernels of
+		// another queue of the same context (flush / dirty-tracking logic)
+		nq = 2*s.Threads + r.Intn(2)
+	}
 	sharedUsed := map[int]bool{}
 	for q := 0; q < nq; q++ {
 		qp := queuePlan{Thread: q % s.Threads, GPU: 1 + r.Intn(ngpu), N: 64 * (1 + r.Intn(4)), Blocking: r.Chance(1, 4), SharedCO: r.Chance(1, 3)}
@@ -193,7 +198,7 @@ func genScenario(r *vlib.PRNG, id string, ngpu int, timing bool) scenario {
 		}
 		ns := 3 + r.Intn(10)
 		if timing {
-			ns = 3 + r.Intn(4)
+			ns = 3 + r.Intn(5)
 		}
 		qp.Steps = append(qp.Steps, step{Kind: "h2d"})
 		for k := 0; k < ns; k++ {
